@@ -72,6 +72,26 @@ func genPath(rt *rapid.T, maxSeg int) string {
 		segs[i] = segAlpha[hx.Uniform(rt, len(segAlpha), "seg")]
 	}
 	p := strings.Join(segs, "/")
+	// Windows-style spellings: on this platform a backslash is an ordinary character of a name,
+	// so "..\\out\\out" names a node INSIDE the view; a layer that treats it as a separator on the
+	// way down climbs out of the root
+	switch w := hx.Uniform(rt, 100, "sepstyle"); {
+	case w >= 90:
+		p = strings.Join(segs, "\\")
+	case w >= 82:
+		var b strings.Builder
+		for i, sg := range segs {
+			if i > 0 {
+				if hx.Chance(rt, 50, "bs") {
+					b.WriteString("\\")
+				} else {
+					b.WriteString("/")
+				}
+			}
+			b.WriteString(sg)
+		}
+		p = b.String()
+	}
 	if hx.Chance(rt, 30, "lead") {
 		p = "/" + p
 	}
